@@ -11,7 +11,7 @@
 From Verif Require Import Base.Prelude Model.C07_s8b.
 Local Open Scope N_scope.
 
-Definition W64 : N := 2 ^ 64.
+Definition W64 : N := 18446744073709551616.   (* 2^64 *)
 Definition add64 (a b : N) : N := (a + b) mod W64.
 Definition sub64 (a b : N) : N := (a + W64 - b) mod W64.
 Definition mul64 (a b : N) : N := (a * b) mod W64.
@@ -324,9 +324,18 @@ Definition byte_bits (c : N) : list bool :=
 
 Definition booleanCompressedBitPacked : N := 1.
 
-(** BooleanEncoder.Write*; Bytes()  and  BooleanArrayEncodeAll(src, nil)  (same bytes) *)
+(** BooleanArrayEncodeAll(src, nil) *)
 Definition bool_encode (bs : list bool) : list N :=
   (booleanCompressedBitPacked * 16) :: put_uvarint (N.of_nat (length bs)) ++ pack_bits bs.
+
+(** BooleanEncoder.Write*; Bytes(): same bytes, except that flush() pads the (empty)
+    current byte to 8 bits and appends it even when nothing was written, so the encoding
+    of zero values carries one extra zero byte. *)
+Definition bool_encode_scalar (bs : list bool) : list N :=
+  match bs with
+  | [] => bool_encode [] ++ [0]
+  | _ => bool_encode bs
+  end.
 
 (** BooleanDecoder / BooleanArrayDecodeAll *)
 Definition bool_decode (b : list N) : option (list bool) :=
